@@ -152,6 +152,15 @@ HARNESSES = [
          unwind=4, witness_per_config=True, backends=["default"],
          bound="3 -> 2 and 3 -> 1 groups (shrink), 2 -> 3 groups (grow), thorough 4 -> 2; 16 blocks per group, inode table 2 blocks; in-use and metadata sets, "
                "all group metadata locations and flags, descriptor blocks 1..2 and reserved GDT 0..2 on both sides, sparse_super(2), csum: symbolic"),
+    dict(name="ss2clear", src="ss2clear.c",
+         funcs=["clear_sparse_super2_last_group", "ext2fs_super_and_bgd_loc2", "ext2fs_bg_has_super"],
+         extra_src=["lib/ext2fs/closefs.c", "lib/ext2fs/blknum.c"],
+         configs=[{"OLDG": 2, "NEWG": 3, "_unwindset": ss2_uw(3, 3) + ["ext2fs_unmark_block_bitmap_range2.0:9"]},
+                  {"OLDG": 3, "NEWG": 4, "_unwindset": ss2_uw(4, 4) + ["ext2fs_unmark_block_bitmap_range2.0:9"]},
+                  {"OLDG": 3, "NEWG": 3, "_unwindset": ss2_uw(3, 3) + ["ext2fs_unmark_block_bitmap_range2.0:9"]}],
+         unwind=4, witness_per_config=True, backends=["default"],
+         bound="2 -> 3 and 3 -> 4 groups, 3 -> 3 (function must not apply); 16 blocks per group; in-use set, descriptor blocks 1..2, reserved GDT 0..2, "
+               "sparse_super2 and both s_backup_bgs pairs symbolic"),
     dict(name="ss2reserve", src="ss2reserve.c",
          funcs=["reserve_sparse_super2_last_group", "ext2fs_super_and_bgd_loc2", "ext2fs_bg_has_super"],
          extra_src=["lib/ext2fs/closefs.c", "lib/ext2fs/blknum.c"],
